@@ -304,7 +304,8 @@ theorem missing_class_status_issued :
    { ns := ['d'], name := ['r'], age := 1, parents := [⟨['d'], ['g'], none⟩], hostnames := [], rules := [], valid := true },
    by decide, by decide, by decide⟩
 
-/-- WITNESS (finding C07:reason:NoMatchingParent-but-listener-exists:invalid-gateway): the Gateway is invalid (here: no class
+/-- WHAT THE CODE DOES (documentation; NOT a violation of C07, which does not prescribe the reason of an Accepted=False
+condition — both entries truthfully say Accepted=False): the Gateway is invalid (here: no class
 object), so the graph holds no listeners and `validateParentRef` looks the section name up among none: the parentRef that
 names the EXISTING listener `l` is reported NoMatchingParent, the one without section name InvalidGateway -/
 theorem invalid_gateway_section_reports_no_matching_parent :
@@ -319,7 +320,8 @@ theorem invalid_gateway_section_reports_no_matching_parent :
      rules := [], valid := true },
    ⟨['d'], ['g'], ['n'], 0, [⟨['l'], 80, [], true⟩]⟩, ⟨['l'], 80, [], true⟩, by decide, by decide, rfl, by decide⟩
 
-/-- WITNESS (finding C07:reason:NoMatchingParent-but-listener-exists:ignored-gateway): a parentRef to the IGNORED Gateway `y`
+/-- WHAT THE CODE DOES (documentation; NOT a violation of C07, which does not prescribe the reason of an Accepted=False
+condition): a parentRef to the IGNORED Gateway `y`
 naming ITS listener `w` is reported NoMatchingParent (the section name is looked up among the winner's listeners); the
 parentRef to `y` without section name is reported GatewayIgnored -/
 theorem ignored_gateway_section_reports_no_matching_parent :
